@@ -210,6 +210,26 @@ def ledger_layer(ctx):
                 if lit is None:
                     continue
                 pairs.append((nested, outer % (op, lit)))
+    # the other direction: the enclosing statement's OPEN / CLOSE / CLEAR do not reach a nested SELECT with a FROM clause
+    # of its own (the nested statement names what it scans; what it does not name is absent)
+    for outer_from in ('OPEN ON %s' % mid, 'CLOSE ON %s' % late, 'OPEN ON %s CLOSE ON %s CLEAR' % (mid, late), 'CLEAR', 'CLOSE'):
+        for inner_from in ('year >= 1900', 'number < 0', 'CLOSE ON %s' % late, 'OPEN ON %s' % mid):
+            inner = 'SELECT account FROM %s' % inner_from
+            accounts = sorted({r[0] for r in conn.execute(inner).fetchall()})
+            if not accounts:
+                continue
+            lit = '(' + ', '.join("'%s'" % a for a in accounts) + (',' if len(accounts) == 1 else '') + ')'
+            for op in ('IN', 'NOT IN'):
+                outer = 'SELECT date, flag, account, position FROM %s WHERE account %s %%s' % (outer_from, op)
+                pairs.append((outer % ('(' + inner + ')'), outer % lit))
+    # a subquery that returns rows, all of them NULL, is not an empty subquery
+    nulls = conn.execute("SELECT count(*) FROM #postings WHERE cost_label IS NULL").fetchall()[0][0]
+    if nulls:
+        pairs.append(("SELECT account, account IN (SELECT cost_label FROM #postings WHERE cost_label IS NULL) AS a, "
+                      "account NOT IN (SELECT cost_label FROM #postings WHERE cost_label IS NULL) AS b FROM #postings",
+                      "SELECT account, FALSE AS a, TRUE AS b FROM #postings"))
+        pairs.append(("SELECT account FROM #postings WHERE account NOT IN (SELECT cost_label FROM #postings WHERE cost_label IS NULL)",
+                      "SELECT account FROM #postings"))
     for a, b in pairs:
         ctx.count('ledger-subquery')
         ctx.evaluations += 1
